@@ -34,6 +34,7 @@ type Engine struct {
 	loadSecs    float64
 	aliasCache  map[string]map[string]*types.Package
 	byFull      map[string]*ssa.Function
+	sentinels   map[*ssa.Global]bool // error globals initialised once by errors.New / fmt.Errorf
 }
 
 func loadEngine(repo, verif string, patterns []string) (*Engine, error) {
@@ -73,6 +74,7 @@ func loadEngine(repo, verif string, patterns []string) (*Engine, error) {
 	eng.prog = prog
 	eng.allFns = ssautil.AllFunctions(prog)
 	eng.byFull = map[string]*ssa.Function{}
+	eng.sentinels = map[*ssa.Global]bool{}
 	for fn := range eng.allFns {
 		if fn.Parent() == nil && fn.Synthetic == "" {
 			eng.byFull[fullName(fn)] = fn
@@ -82,6 +84,19 @@ func loadEngine(repo, verif string, patterns []string) (*Engine, error) {
 		}
 		// mutable globals: any store to a global outside a package initializer
 		if fn.Name() == "init" || strings.HasPrefix(fn.Name(), "init#") {
+			for _, b := range fn.Blocks {
+				for _, in := range b.Instrs {
+					if s, ok := in.(*ssa.Store); ok {
+						if g, ok := s.Addr.(*ssa.Global); ok {
+							if c, ok := s.Val.(*ssa.Call); ok {
+								if f := c.Common().StaticCallee(); f != nil && (fullName(f) == "errors.New" || fullName(f) == "fmt.Errorf") {
+									eng.sentinels[g] = true
+								}
+							}
+						}
+					}
+				}
+			}
 			continue
 		}
 		for _, b := range fn.Blocks {
@@ -401,6 +416,8 @@ func (fe *FuncEnc) run(extra []*Clause) {
 		for i, cs := range css {
 			env := fr.envAt(cs.pre)
 			env.at = cs.block
+			env.curCall = cs
+			env.curName = sk.Call
 			f, err := env.evalBool(sk.Expr)
 			label := sk.Label
 			if len(css) > 1 {
